@@ -11,6 +11,7 @@
                                    _search_ancestor_offspring, iter_children, iter_siblings,
                                    get_DIE_from_attribute, set_parent
      elftools/dwarf/lineprogram.py get_entries (memo, file_entry growth)
+     elftools/dwarf/callframe.py   CFIEntry.get_decoded (memo; an FDE decodes through its CIE's memo)
      elftools/dwarf/abbrevtable.py __init__ (seek + parse)
      elftools/elf/elffile.py       num_sections, get_section, get_section_by_name,
                                    _make_section_name_map, iter_sections, get_segment
@@ -48,6 +49,9 @@ Record parsers := mk_parsers {
   p_lpbody : Z -> Z -> Z -> res (lp_body * Z);     (* unit offset -> program start -> end -> entries, cursor after *)
   (* .debug_frame / .eh_frame: CallFrameInfo(...).get_entries() starts with an absolute read at 0 *)
   p_cfi : bool -> Z -> res (Z * Z);                (* eh? -> position (always 0) -> entries, cursor after *)
+  p_cfi_count : bool -> Z;                         (* len(entries) *)
+  p_cfi_kind : bool -> Z -> Z * Z;                 (* entries[i]: 0 = CIE, 1 = FDE, 2 = ZERO; index of entries[i].cie in the list *)
+  p_cfi_table : bool -> Z -> option Z -> res Z;    (* _decode_CFI_table of entries[i], given the decoded table of its CIE *)
   (* ELF *)
   p_stream_len : Z; p_shoff : Z; p_shnum : Z; p_shentsize : Z; p_shstr_base : Z;
   p_shdr : Z -> res (shdr_raw * Z);
@@ -569,6 +573,59 @@ Section Machine.
     let sid := if eh then S_EH else S_FRAME in
     seek sid 0 ;;; parse_stream (p_cfi P eh) sid.
 
+  (* the client's `entries = dwarfinfo.CFI_entries()`: new CFIEntry objects, nothing decoded yet *)
+  Definition held (eh : bool) (s : state) : option (list (option Z)) := if eh then snd (cfis s) else fst (cfis s).
+  Definition set_held (eh : bool) (v : option (list (option Z))) : M unit :=
+    modify (fun s => set_cfis s (if eh then (fst (cfis s), v) else (v, snd (cfis s)))).
+  Definition cfi_fetch (eh : bool) : M Z :=
+    e <- cfi_entries eh ;;
+    set_held eh (Some (repeat None (Z.to_nat (p_cfi_count P eh)))) ;;;
+    ret e.
+
+  (* CFIEntry.get_decoded() of entries[i]:
+       if self._decoded_table is None: self._decoded_table = self._decode_CFI_table()
+       return self._decoded_table
+     CFIEntry._decode_CFI_table (callframe.py): a CIE starts from an empty line and reg_order = []; an FDE
+       cie_decoded_table = self.cie.get_decoded()            # memoised in the CIE object of the same list
+       cur_line = copy.copy(cie_decoded_table.table[-1]); reg_order = copy.copy(cie_decoded_table.reg_order)
+     and then runs its own instructions: the result is a function of the entry and of the CIE's table *)
+  Definition memo_get (eh : bool) (i : Z) : M (option Z) :=
+    s <- get_state ;;
+    match held eh s with
+    | None => fail (EPy "TypeError")
+    | Some l => match nth_error l (Z.to_nat i) with Some m => ret m | None => fail (EPy "IndexError") end
+    end.
+  Definition memo_set (eh : bool) (i : Z) (t : Z) : M unit :=
+    s <- get_state ;;
+    match held eh s with
+    | None => fail (EPy "TypeError")
+    | Some l => set_held eh (Some (upd_nth (Z.to_nat i) (fun _ => Some t) l))
+    end.
+  (* get_decoded of an entry that is a CIE *)
+  Definition cie_get_decoded (eh : bool) (j : Z) : M Z :=
+    m <- memo_get eh j ;;
+    match m with
+    | Some t => ret t
+    | None => t <- lift (p_cfi_table P eh j None) ;; memo_set eh j t ;;; ret t
+    end.
+  Definition entry_get_decoded (eh : bool) (i : Z) : M Z :=
+    m <- memo_get eh i ;;
+    match m with
+    | Some t => ret t
+    | None =>
+        let '(kind, cie) := p_cfi_kind P eh i in
+        if kind =? 0 then cie_get_decoded eh i
+        else if kind =? 1 then
+          ct <- cie_get_decoded eh cie ;;
+          t <- lift (p_cfi_table P eh i (Some ct)) ;; memo_set eh i t ;;; ret t
+        else fail (EPy "AttributeError")          (* ZERO terminators have no get_decoded *)
+    end.
+  (* entries[i].get_decoded() on the list the client holds; the list is fetched first when there is none *)
+  Definition cfi_decoded (eh : bool) (i : Z) : M Z :=
+    s <- get_state ;;
+    match held eh s with None => cfi_fetch eh ;;; ret tt | Some _ => ret tt end ;;;
+    if (0 <=? i) && (i <? p_cfi_count P eh) then entry_get_decoded eh i else fail (EPy "IndexError").
+
   (* ================================================================ elffile.py, sections.py *)
 
   (* ELFFile._get_section_header(n):
@@ -812,7 +869,8 @@ Section Machine.
         | None => ret ANone
         | Some key => e <- lp_get_entries key ;; ret (AVals [e])
         end
-    | CFI eh => e <- cfi_entries eh ;; ret (AVals [e])
+    | CFI eh => e <- cfi_fetch eh ;; ret (AVals [e])
+    | CFIDecoded eh i => t <- cfi_decoded eh i ;; ret (AVals [t])
     | NewIterCUs slot => set_slot slot (FCUs 0) ;;; ret ADone
     | NewIterDIEs slot u =>
         (* iter_DIEs() calls get_top_DIE() eagerly: return self._iter_DIE_subtree(self.get_top_DIE()) *)
